@@ -7,7 +7,6 @@ import (
 	"fmt"
 	"net/http"
 	"sort"
-	"strings"
 	"sync"
 	"time"
 
@@ -233,13 +232,14 @@ type roundRec struct {
 	RequeueAfter  int64
 	Queue         []vh.QueueOp
 	PanicMsg      string
+	Key           string
 }
 
 func resKey(resource, apiVersion string) string { return resource + "." + apiVersion }
 
 // runSync runs the real pc.sync(key) and gathers the round record.
 func (w *cworld) runSync(s *ctlSpec, b *builtPC, key string) *roundRec {
-	rec := &roundRec{CacheChildren: map[string][]map[string]interface{}{}}
+	rec := &roundRec{CacheChildren: map[string][]map[string]interface{}{}, Key: key}
 	// what the caches hold
 	ns, name, _ := cache.SplitMetaNamespaceKey(key)
 	if p, err := common.GetObject(b.pc.parentInformer, ns, name); err == nil {
@@ -270,18 +270,25 @@ func (w *cworld) runSync(s *ctlSpec, b *builtPC, key string) *roundRec {
 				rec.PanicMsg = fmt.Sprint(r)
 			}
 		}()
-		err := b.pc.sync(key)
-		if err != nil {
-			rec.Result = "err"
-		} else {
-			rec.Result = "done"
-		}
+		// the real worker step: Get, sync, then AddRateLimited / Forget, Done
+		b.queue.Push(key)
+		b.pc.processNextWorkItem()
 	}()
 	rec.Queue = b.queue.Snapshot()
-	for _, op := range rec.Queue {
-		if op.Op == "AddAfter" && rec.Result == "done" && strings.Contains(key, op.Key) && op.Delay%time.Second == 0 && requeue429(hookTransport.Calls()) {
-			rec.Result = "requeue"
-			rec.RequeueAfter = int64(op.Delay / time.Second)
+	if rec.Result != "panic" {
+		rec.Result = "done"
+		for _, op := range rec.Queue {
+			if op.Op == "AddRateLimited" {
+				rec.Result = "err"
+			}
+		}
+		if rec.Result == "done" && requeue429(hookTransport.Calls()) {
+			for _, op := range rec.Queue {
+				if op.Op == "AddAfter" && op.Key == key {
+					rec.Result = "requeue"
+					rec.RequeueAfter = int64(op.Delay / time.Second)
+				}
+			}
 		}
 	}
 	_ = hookAt
